@@ -82,12 +82,15 @@ func compressRaw(in []byte, crc bool, parts []int) (res CompressResult) {
 
 // Source describes the io.Reader kind the compressed stream is served through.
 type Source struct {
-	Kind string `json:"kind"`           // bytes | chunk | dataerr
+	Kind string `json:"kind"`           // bytes | chunk | dataerr | transient
 	K    int    `json:"k,omitempty"`    // chunk: at most K bytes per Read (PRNG 1..K when Seed != 0)
 	Seed int64  `json:"seed,omitempty"` //
 }
 
 func (s Source) String() string {
+	if s.Kind == "transient" {
+		return "transient"
+	}
 	if s.Kind == "chunk" || s.Kind == "dataerr" {
 		return fmt.Sprintf("%s%d", s.Kind, s.K)
 	}
@@ -104,7 +107,14 @@ type chunkReader struct {
 	k       int
 	r       *rand.Rand
 	dataErr bool
+	// failAt >= 0: the Read that would deliver byte number failAt returns (0, ErrTransient) once; the
+	// source carries on afterwards (an expired read deadline, iotest.TimeoutReader)
+	failAt int
+	off    int
 }
+
+// ErrTransient is the one-shot error of the "transient" source.
+var ErrTransient = errors.New("lzwork: transient source error (i/o timeout)")
 
 func (c *chunkReader) Read(p []byte) (int, error) {
 	if len(p) == 0 {
@@ -118,8 +128,16 @@ func (c *chunkReader) Read(p []byte) (int, error) {
 		n = 1 + c.r.Intn(c.k)
 	}
 	n = min(n, len(p), len(c.b))
+	if c.failAt >= 0 && c.off+n > c.failAt {
+		if c.off == c.failAt {
+			c.failAt = -1
+			return 0, ErrTransient
+		}
+		n = c.failAt - c.off // deliver up to the failing byte first
+	}
 	copy(p, c.b[:n])
 	c.b = c.b[n:]
+	c.off += n
 	if c.dataErr && len(c.b) == 0 {
 		return n, io.EOF
 	}
@@ -132,11 +150,13 @@ func (s Source) Open(stream []byte) io.Reader {
 	case "bytes":
 		return bytes.NewReader(stream)
 	case "chunk", "dataerr":
-		c := &chunkReader{b: stream, k: max(s.K, 1), dataErr: s.Kind == "dataerr"}
+		c := &chunkReader{b: stream, k: max(s.K, 1), dataErr: s.Kind == "dataerr", failAt: -1}
 		if s.Seed != 0 {
 			c.r = vrt.Rand(s.Seed, "chunk", len(stream))
 		}
 		return c
+	case "transient": // K = offset of the byte whose delivery fails once
+		return &chunkReader{b: stream, k: 7, failAt: s.K}
 	}
 	panic("lzwork: unknown source " + s.Kind)
 }
